@@ -200,7 +200,7 @@ pub fn dispatch(kind: &str, v: &Value) -> Option<Outcome> {
 pub fn campaigns(ctx: &Ctx) -> Stats {
     let mut st = Stats::default();
     let t = ctx.tier;
-    let (len, total) = t.pick((20usize, 24000u64), (70, 300000));
+    let (len, total) = t.pick((20usize, 40000u64), (70, 300000));
     for (name, exact) in [("exact-histories", true), ("mixed-histories", false)] {
         let cfg = cfg_for(t, exact);
         st.merge(ctx.run_prop(name, total / 2, move || recipe_strategy(len), move |r| Some(Case10 { hist: elaborate(&cfg, r) })));
